@@ -34,6 +34,7 @@ type c25Cfg struct {
 	LatWarn, LatCrit int64 // ms
 	ErrWarnNum       int64 // thresholds as k/20
 	ErrCritNum       int64
+	MaxSamples       int // 0 = default (512)
 }
 
 const c25Den = 20
@@ -45,6 +46,7 @@ func (c c25Cfg) monitorConfig() S3HealthConfig {
 		LatencyCrit: time.Duration(c.LatCrit) * time.Millisecond,
 		ErrorWarn:   float64(c.ErrWarnNum) / float64(c25Den),
 		ErrorCrit:   float64(c.ErrCritNum) / float64(c25Den),
+		MaxSamples:  c.MaxSamples,
 	}
 }
 
@@ -108,6 +110,17 @@ func c25Allowed(c c25Cfg, all []c25Sample, nowMs int64) (allowed [3]bool, inWind
 			withEdge = append(withEdge, s)
 		}
 	}
+	// the MaxSamples knob: only the newest MaxSamples samples are kept
+	capN := c.MaxSamples
+	if capN <= 0 {
+		capN = 512
+	}
+	if len(strict) > capN {
+		strict = strict[len(strict)-capN:]
+	}
+	if len(withEdge) > capN {
+		withEdge = withEdge[len(withEdge)-capN:]
+	}
 	for _, set := range [][]c25Sample{strict, withEdge} {
 		for _, on := range []bool{true, false} {
 			allowed[c25RefRating(c, set, on)] = true
@@ -133,6 +146,9 @@ func TestVF_C25_Monitor(t *testing.T) {
 		c.LatCrit = c.LatWarn * rapid.SampledFrom([]int64{2, 3, 6, 10}).Draw(rt, "latCritFactor")
 		c.ErrWarnNum = int64(rapid.IntRange(1, 12).Draw(rt, "errWarnNum"))
 		c.ErrCritNum = c.ErrWarnNum + int64(rapid.IntRange(1, 20-int(c.ErrWarnNum)).Draw(rt, "errCritExtra"))
+		if rapid.IntRange(0, 2).Draw(rt, "smallCap") > 0 {
+			c.MaxSamples = rapid.IntRange(3, 20).Draw(rt, "maxSamples")
+		}
 		ordered := true
 		if rapid.IntRange(0, 11).Draw(rt, "oddThresholds") == 0 {
 			// warn >= crit: the statement does not say what wins; only the metamorphic laws apply
@@ -153,11 +169,26 @@ func TestVF_C25_Monitor(t *testing.T) {
 		errBias := rapid.SampledFrom([]int{0, 1, 3, 6, 9}).Draw(rt, "errBias") // of 10
 		latBias := rapid.IntRange(0, len(latAlphabet)-1).Draw(rt, "latBias")
 		n := rapid.IntRange(1, 40).Draw(rt, "n")
+		dense := c.MaxSamples > 0 && rapid.IntRange(0, 3).Draw(rt, "dense") > 0 // many samples inside one window
+		// S3 behaviour changes at some point of the history (outage / recovery)
+		phaseAt := rapid.IntRange(0, n).Draw(rt, "phaseAt")
+		errBias2 := rapid.SampledFrom([]int{0, 10, 10, 5}).Draw(rt, "errBiasAfter")
+		latBias2 := rapid.IntRange(0, len(latAlphabet)-1).Draw(rt, "latBiasAfter")
 		evs := make([]c25Ev, n)
 		worseCount := 0
+		overCap := false
 		for i := range evs {
 			e := c25Ev{}
 			e.DtMs = rapid.SampledFrom(dtAlphabet).Draw(rt, "dt")
+			if dense {
+				e.DtMs = rapid.SampledFrom([]int64{0, 1, 1, 2, c.WindowMs / 100}).Draw(rt, "denseDt")
+			}
+			if i >= phaseAt {
+				errBias, latBias = errBias2, latBias2
+			}
+			if c.MaxSamples > 0 && i >= c.MaxSamples {
+				overCap = true
+			}
 			if rapid.IntRange(0, 2).Draw(rt, "latKind") == 0 {
 				e.LatMs = latAlphabet[latBias]
 			} else {
@@ -281,6 +312,12 @@ func TestVF_C25_Monitor(t *testing.T) {
 		}
 		if nPrefix > 0 {
 			st.Class("with-out-of-window-prefix")
+		}
+		if c.MaxSamples > 0 {
+			st.Class("small-MaxSamples")
+			if overCap && dense {
+				st.Class("more-than-MaxSamples-samples-inside-one-window")
+			}
 		}
 		if trans > 0 {
 			st.Class("crossed-a-threshold")
